@@ -16,7 +16,8 @@ given.
 Ops = critical sections / atomic steps of `getClient` (under `r.mutex`: look up, drop a finished
 client whose dial failed or whose connection died, register a new dialling client, `useCount++`),
 the dial goroutine finishing, a connection dying, the request giving up while the dial runs
-(`useCount--`), `removeClient(hostname)` after a failed dial or a connection-level error of
+(`useCount--`), a waiter starting over after the dial was cancelled together with the request
+that started it (`shouldRetryDial`), `removeClient(hostname)` after a failed dial or a connection-level error of
 `RoundTrip` (it deletes whatever is registered for the host NOW), the request finishing
 (`useCount--`), `CloseIdleConnections` (closes and drops the clients with `useCount == 0`),
 `Close`.
@@ -27,8 +28,10 @@ abbrev Host := Nat
 abbrev Client := Nat
 abbrev Req := Nat
 
+/-- `cancelled`: the dial failed with the context error of the request that started it (that
+request gave up) — requests still waiting for it dial again (`shouldRetryDial`, /repo 76fa6b6). -/
 inductive Dial where
-  | running | ok | failed
+  | running | ok | failed | cancelled
 deriving DecidableEq, Repr
 
 structure Cl where
@@ -59,8 +62,10 @@ structure St where
 inductive Op where
   /-- `getClient(ctx, host, onlyCached)` for request `r` -/
   | get (r : Nat) (h : Nat) (onlyCached : Bool)
-  /-- the dial goroutine of client `c` finishes -/
-  | dialDone (c : Nat) (ok : Bool)
+  /-- the dial goroutine of client `c` finishes (`res` ≠ running) -/
+  | dialDone (c : Nat) (res : Dial)
+  /-- the dial `r` waited for was cancelled with its creator: `r` starts over (`RoundTripOpt` again) -/
+  | retryDial (r : Nat)
   /-- the QUIC connection of `c` dies (peer, idle timeout, error) -/
   | connDies (c : Nat)
   /-- the request's context ends while the dial is still running: `useCount--`, return -/
@@ -88,7 +93,8 @@ def dropStale (s : St) (h : Nat) : St :=
   match s.clients.lookup h with
   | some c =>
     let x := s.cl c
-    if x.dial = .failed ∨ (x.dial = .ok ∧ x.dead = true) then { s with clients := erase s.clients h } else s
+    if x.dial = .failed ∨ x.dial = .cancelled ∨ (x.dial = .ok ∧ x.dead = true) then
+      { s with clients := erase s.clients h } else s
   | none => s
 
 def step (s : St) : Op → St × Out
@@ -110,10 +116,18 @@ def step (s : St) : Op → St × Out
                               cl := upd s1.cl c { host := some h, useCount := 1, creator := r } }
           ({ s2 with rhost := upd s2.rhost r (some h), rst := upd s2.rst r (.holding c), reqs := r :: s2.reqs },
            .got c true)
-  | .dialDone c ok =>
+  | .dialDone c res =>
     let x := s.cl c
-    if x.host.isNone ∨ x.dial ≠ .running then (s, .ignored)
-    else ({ s with cl := upd s.cl c { x with dial := if ok then .ok else .failed } }, .none)
+    if x.host.isNone ∨ x.dial ≠ .running ∨ res = .running then (s, .ignored)
+    else ({ s with cl := upd s.cl c { x with dial := res } }, .none)
+  | .retryDial r =>
+    match s.rst r with
+    | .holding c =>
+      if (s.cl c).dial ≠ .cancelled ∨ (s.cl c).creator = r then (s, .ignored)
+      else
+        -- back to the start of `RoundTripOpt`; the old client's `useCount` is not given back
+        ({ s with rst := upd s.rst r .fresh, reqs := s.reqs.erase r }, .none)
+    | _ => (s, .ignored)
   | .connDies c =>
     let x := s.cl c
     if x.dial ≠ .ok then (s, .ignored)
